@@ -1,2 +1,3 @@
 import RpyProofs.Bridge
 import RpyProofs.Props.C01
+import RpyProofs.Props.C17
